@@ -358,17 +358,11 @@ class Check(core.PropertyCheck):
         "regular mode; stream callables are byte-wise maps",
     )
 
-    empty_chunk_ends = True
-    PROBE = {"cfg": {"limit": -1, "sthr": -1, "store": False, "xq": "atend", "xp": "off"}, "unit": 1,
-             "ops": [["ReqHead", "chunked", 0], ["ReqChunk", 2], ["ReqEnd"]]}
-
-    def setup(self, ctx):
-        """Which variant of the named deviation EmptyChunkEnds does this tree have?  (Selects the model constant
-        only; verdicts come from the monitor.)  Probe: a stream callable that returns b"" for a data chunk of a
-        chunked request and the whole body at the end -- does the body still reach the server?"""
-        tr = run_ops(self.PROBE)
-        self.empty_chunk_ends = not any(e["k"] == "tx" and e["d"] == "req" for e in tr)
-        ctx.notes["code_variant"] = {"EmptyChunkEnds": self.empty_chunk_ends}
+    # Named deviation of HttpBody.tla.  FALSE = the code since /repo commit fe132bb82 (Http1Client.send /
+    # Http1Server.send write nothing for an empty data event); TRUE = the code as first found (an empty chunk of a
+    # chunked message is written as the last-chunk marker, findings_proposed/C07.md) -- only used to show that the
+    # monitor's clause is reachable in the pre-repair model.
+    empty_chunk_ends = False
 
     def mon_constants(self, tier):
         return {}
@@ -397,9 +391,10 @@ class Check(core.PropertyCheck):
             if not any(m.coverage.get(act, 0) for m in runs):
                 raise core.MachineryError(f"vacuous model runs: action {act} never taken")
         if not self.empty_chunk_ends:
-            # repaired tree: the model of the code as found must still reach the clause (monitor not vacuous)
+            # the model of the code as found must still reach the clause (monitor not vacuous); reduced alphabet
             a, _b = self.model_constants("quick")
-            pre = ctx.model_check(self.MODEL, a | {"EmptyChunkEnds": True}, dump=False, tag="_prefix")
+            pre = ctx.model_check(self.MODEL, a | {"EmptyChunkEnds": True, "Limits": frozenset({-1}),
+                                                   "ReqXf": frozenset({"atend"})}, dump=False, tag="_prefix")
             if ["C07.stream_not_relayed_exactly", "req", "atend"] not in pre.bad:
                 raise core.MachineryError("clause C07.stream_not_relayed_exactly unreachable in the pre-repair model")
             ctx.notes["prefix_model_reaches"] = pre.bad
@@ -480,7 +475,7 @@ class Check(core.PropertyCheck):
                                     "kp": list(b[-1][2]["s"]["kept"]["resp"])}]
                 yield core.Scenario({"cfg": cfg, "ops": ops, "unit": 1}, predicted=pred, source="simulate")
         rng = random.Random(ctx.seed + 7)
-        for _ in range(800 if ctx.quick else 10000):
+        for _ in range(500 if ctx.quick else 10000):
             yield core.Scenario({"ops": None, "seed": rng.randrange(1 << 30)}, source="random")
 
     def execute(self, sc):
